@@ -89,6 +89,24 @@ type memNet struct {
 	mu      sync.Mutex
 	targets map[string]*memTarget
 	hcPath  string
+	// optional observers (set before any traffic)
+	onProbe   func(target string)
+	onRequest func(target, id string)
+}
+
+func (n *memNet) all() []*memTarget {
+	n.mu.Lock()
+	defer n.mu.Unlock()
+	names := []string{}
+	for k := range n.targets {
+		names = append(names, k)
+	}
+	sort.Strings(names)
+	out := []*memTarget{}
+	for _, k := range names {
+		out = append(out, n.targets[k])
+	}
+	return out
 }
 
 func newMemNet() *memNet { return &memNet{targets: map[string]*memTarget{}, hcPath: "/up"} }
@@ -173,6 +191,9 @@ func (t *memTarget) ServeHTTP(w http.ResponseWriter, r *http.Request) {
 		t.probes = append(t.probes, time.Now())
 		mode, st := t.probeMode, t.probeStatus
 		t.mu.Unlock()
+		if f := t.net.onProbe; f != nil {
+			f(t.name)
+		}
 		switch mode {
 		case "hang":
 			<-r.Context().Done()
@@ -198,6 +219,9 @@ func (t *memTarget) ServeHTTP(w http.ResponseWriter, r *http.Request) {
 		t.held[id] = h
 	}
 	t.mu.Unlock()
+	if f := t.net.onRequest; f != nil {
+		f(t.name, id)
+	}
 
 	if override != nil {
 		override(w, r)
